@@ -462,10 +462,34 @@ func checkC13(c *core.Ctx, r *core.Report) {
 					if bt, ok := x.Type().Underlying().(*types.Basic); !ok || bt.Info()&types.IsString == 0 {
 						continue
 					}
-					_, cx := x.X.(*ssa.Const)
-					_, cy := x.Y.(*ssa.Const)
-					if !cx && !cy && variablePart(x.X) && variablePart(x.Y) {
-						bad = "two variable strings are concatenated without a literal between them"
+					// judge whole concatenations: flatten a + b + c ... into its leaves (only at the root of the
+					// chain), drop process-wide constants (argument-less configuration getters such as
+					// GetDataPath(), GetHostID(): not parts of the key), and require a literal between any two
+					// variable leaves
+					isRoot := true
+					if refs := x.Referrers(); refs != nil {
+						for _, u := range *refs {
+							if pb, ok := u.(*ssa.BinOp); ok && pb.Op == token.ADD {
+								isRoot = false
+							}
+						}
+					}
+					if !isRoot {
+						continue
+					}
+					prevVariable := false
+					for _, leaf := range concatLeaves(x, 0) {
+						switch {
+						case isLiteralLeaf(leaf):
+							prevVariable = false
+						case isProcessConstant(leaf):
+							// transparent
+						default:
+							if prevVariable {
+								bad = "two variable strings are concatenated without a literal between them"
+							}
+							prevVariable = true
+						}
 					}
 				case *ssa.Call:
 					f := core.CalleeFunc(x)
@@ -482,6 +506,46 @@ func checkC13(c *core.Ctx, r *core.Report) {
 							}
 							if adjacentVerbs(format) && !dirFirst {
 								bad = fmt.Sprintf("format %q has two verbs with nothing between them", format)
+							}
+						}
+					}
+				}
+			}
+		}
+		// the strings.Builder spelling of the same concatenation: straight-line WriteString calls on one builder
+		{
+			byBuilder := map[ssa.Value][]*ssa.Call{}
+			straight := true
+			for _, b := range fn.Blocks {
+				for _, in := range b.Instrs {
+					ws, ok := in.(*ssa.Call)
+					if !ok {
+						continue
+					}
+					wf := core.CalleeFunc(ws)
+					if wf == nil || wf.Name() != "WriteString" || wf.Pkg() == nil || wf.Pkg().Path() != "strings" || len(ws.Call.Args) != 2 {
+						continue
+					}
+					if b != fn.Blocks[0] {
+						straight = false
+					}
+					byBuilder[ws.Call.Args[0]] = append(byBuilder[ws.Call.Args[0]], ws)
+				}
+			}
+			if straight {
+				for _, writes := range byBuilder {
+					prevVariable := false
+					for _, ws := range writes {
+						for _, leaf := range concatLeaves(ws.Call.Args[1], 0) {
+							switch {
+							case isLiteralLeaf(leaf):
+								prevVariable = false
+							case isProcessConstant(leaf):
+							default:
+								if prevVariable {
+									bad = "two variable strings are written to the builder one after the other without a literal between them"
+								}
+								prevVariable = true
 							}
 						}
 					}
@@ -936,6 +1000,34 @@ func touchesMapDeep(in ssa.Instruction, g *ssa.Global) bool {
 		}
 	}
 	return false
+}
+
+// concatLeaves flattens a string concatenation into its operands, left to right.
+func concatLeaves(v ssa.Value, depth int) []ssa.Value {
+	if bo, ok := v.(*ssa.BinOp); ok && bo.Op == token.ADD && depth < 40 {
+		return append(concatLeaves(bo.X, depth+1), concatLeaves(bo.Y, depth+1)...)
+	}
+	return []ssa.Value{v}
+}
+
+func isLiteralLeaf(v ssa.Value) bool {
+	k, ok := v.(*ssa.Const)
+	if !ok {
+		return false
+	}
+	s, isStr := core.ConstStringValue(k)
+	return isStr && s != ""
+}
+
+// isProcessConstant: the result of an argument-less function of pkg/config (data path, host id): the same
+// string in every key the process builds, so it neither separates nor collides.
+func isProcessConstant(v ssa.Value) bool {
+	call, ok := v.(*ssa.Call)
+	if !ok || len(call.Call.Args) != 0 {
+		return false
+	}
+	f := core.CalleeFunc(call)
+	return f != nil && f.Pkg() != nil && strings.HasSuffix(f.Pkg().Path(), "/pkg/config")
 }
 
 func variablePart(v ssa.Value) bool {
